@@ -81,8 +81,22 @@ fn base_cfg(r: &mut SimRng, prop: &str, max_steps: u64) -> W4Cfg {
 }
 
 fn gen_initial(r: &mut SimRng, cfg: &W4Cfg, kind: u64) -> Vec<(usize, bool, u32, u32)> {
-    // kind: 0 empty, 1 bids only, 2 asks only, 3 two-sided
+    // kind: 0 empty, 1 bids only, 2 asks only, 3 two-sided, 4 asks only on the lowest grid prices, 5 bids only on the highest
     let mut v = vec![];
+    if kind >= 4 {
+        for a in 0..cfg.assets {
+            let tick = cfg.ticks[a];
+            let top = (u32::MAX - 1) / tick;
+            for k in 1..=r.range(1, 3) as u32 {
+                if kind == 4 {
+                    v.push((a, false, k * tick, r.range(1, 500) as u32));
+                } else {
+                    v.push((a, true, (top - k + 1) * tick, r.range(1, 500) as u32));
+                }
+            }
+        }
+        return v;
+    }
     for a in 0..cfg.assets {
         let tick = cfg.ticks[a];
         for k in 1..=r.range(1, 4) as u32 {
@@ -115,6 +129,9 @@ fn gen_groups(r: &mut SimRng, cfg: &W4Cfg, corner: bool, heavy: bool) -> Vec<Age
 pub fn generate_c09(seed: u64) -> W4Scn {
     let mut r = SimRng::new(seed ^ 0xC09);
     let mut cfg = base_cfg(&mut r, "C09", 200);
+    if r.chance(0.04) {
+        cfg.n_steps = 0; // the runners must do nothing at all
+    }
     let agents = gen_groups(&mut r, &cfg, false, false);
     let kind = *r.pick(&[0u64, 3, 3, 3, 1, 2]);
     let initial = gen_initial(&mut r, &cfg, kind);
@@ -144,7 +161,7 @@ pub fn generate_c16(seed: u64) -> W4Scn {
     }
     let heavy = r.chance(0.5);
     let agents = gen_groups(&mut r, &cfg, true, heavy);
-    let kind = r.below(4);
+    let kind = if r.chance(0.12) { 4 + r.below(2) } else { r.below(4) };
     let initial = gen_initial(&mut r, &cfg, kind);
     let mut inject = vec![];
     if r.chance(0.5) {
@@ -166,17 +183,29 @@ pub fn generate_c17(seed: u64) -> W4Scn {
     cfg.centre = r.range(1_000, 1_000_000) as u32;
     let asset = r.usize(cfg.assets);
     let n = r.range(1, 20) as u16;
-    let saturated = r.chance(0.6);
-    let demand = if saturated { (n as f64) * *r.pick(&[1e6f64, 1e9, 1e12]) } else { (n as f64) * *r.pick(&[0.5f64, 1.0, 3.0, 20.0]) };
-    let scale = if saturated { *r.pick(&[1.0f64, 10.0, 1000.0]) } else { *r.pick(&[0.01f64, 0.1, 1.0]) };
+    // three regimes: far saturated, just above the saturation threshold for a one-tick move (sensitive to the scale of M),
+    // and unsaturated (direction clauses only)
+    let regime = r.below(10);
+    let saturated = regime < 5;
+    let tick_a = cfg.ticks[asset] as f64;
+    let (demand, scale) = if saturated {
+        ((n as f64) * *r.pick(&[1e6f64, 1e9, 1e12]), *r.pick(&[1.0f64, 10.0, 1000.0]))
+    } else if regime < 8 {
+        // tanh(scale * M) ~ 0.96 for |M| = one tick (half a tick: 0.76): p just above 1 for whole-tick moves
+        ((n as f64) * *r.pick(&[1.05f64, 1.1, 1.3]), 2.0 / tick_a)
+    } else {
+        ((n as f64) * *r.pick(&[0.5f64, 1.0, 3.0, 20.0]), *r.pick(&[0.01f64, 0.1, 1.0]))
+    };
     let order_ratio = *r.pick(&[0.0f64, 0.0, 1.0, 2.0, 0.5]);
+    let style = r.below(5);
+    let decay = if style == 4 { 0.5 } else { *r.pick(&[1.0f64, 1.0, 0.5, 0.9, 0.25]) };
     let spec = AgentSpec::Momentum {
         asset,
         id_start: 100,
         n,
         p_cancel: *r.pick(&[0.0f32, 1.0, 0.3]),
         trade_vol: r.range(1, 50) as u32,
-        decay: *r.pick(&[1.0f64, 1.0, 0.5, 0.9, 0.25]),
+        decay,
         demand,
         scale,
         order_ratio,
@@ -187,9 +216,14 @@ pub fn generate_c17(seed: u64) -> W4Scn {
     let len = r.range(4, 60) as usize;
     let mut path = vec![];
     let mut off: i32 = 0;
-    let style = r.below(4);
-    for _ in 0..len {
+    for k in 0..len {
         let d: i32 = match style {
+            // rise two, fall one, flat, flat ...: with decay 1/2 the momentum cancels to exactly zero
+            4 => match k % 5 {
+                1 => 2,
+                2 => -1,
+                _ => 0,
+            },
             0 => r.range(0, 3) as i32,
             1 => -(r.range(0, 3) as i32),
             2 => r.range(0, 6) as i32 - 3,
@@ -202,7 +236,7 @@ pub fn generate_c17(seed: u64) -> W4Scn {
             }
         };
         off = (off + d).clamp(-400, 400);
-        path.push((off, r.chance(0.3)));
+        path.push((off, style != 4 && r.chance(0.3)));
     }
     cfg.path = path;
     cfg.n_steps = len as u64;
